@@ -48,10 +48,14 @@ NS_POOL = [None, {}, {'svg': NS_SVG}, {'svg': 'urn:other'}, {'svg': NS_SVG, 'x':
 CUSTOM_POOL = [None, {}, {':--x': 'a'}, {':--x': 'b'}, {':--x': 'a', ':--y': 'b'}, {':--y': 'b', ':--x': 'a'},
                {':--X': 'a'}, {':--x': 'a '},
                # same text for :--y, different definition of the :--x it refers to
-               {':--x': 'p', ':--y': 'div :--x'}, {':--x': 'li', ':--y': 'div :--x'}, {':--x': 'a', ':--y': ':--x > b'}]
+               {':--x': 'p', ':--y': 'div :--x'}, {':--x': 'li', ':--y': 'div :--x'}, {':--x': 'a', ':--y': ':--x > b'},
+               # two spellings of one name (equal after un-escaping), in both insertion orders: whatever compile does with
+               # such a map (the documented KeyError), it must do for either order and with or without a cache hit
+               {':--x': 'p', ':--\\78': 'div'}, {':--\\78': 'div', ':--x': 'p'},
+               {':--x': 'p', ':--\\58 ': 'div'}, {':--\\58 ': 'div', ':--x': 'p'}]
 PATTERNS = ['p', 'p ', 'P', 'a > b', 'a>b', ':is(a, b)', ':is(b, a)', 'svg|circle', '*|circle', 'a:--x', 'a:--y', ':--y',
             ':nth-child(2n+1)', ':nth-child(odd)', '[type="a"]', "[type='a']", '[type=a i]', ':lang(en)', ':lang("en")',
-            ':-soup-contains("x")', 'li:has(> a)']
+            ':-soup-contains("x")', 'li:has(> a)', 'p.a\x00', 'p.a\ufffd', '\x00', '\ufffd']
 FGCFG = FG.Cfg(ns_forms=True, prefixes=('svg', 'x'), custom=('--x',), max_depth=2)
 _doc = [None]
 
@@ -97,6 +101,22 @@ def do_compile(key):
     if custom is not None:
         kw['custom'] = custom
     return quiet(sv.compile, pat, ns, flags, **kw)
+
+
+def outcome(key):
+    """('ok', compiled) or ('raise', exception type name) for the two documented errors of compile()."""
+    try:
+        return ('ok', do_compile(key))
+    except (KeyError, sv.SelectorSyntaxError) as e:
+        return ('raise', type(e).__name__)
+
+
+def same_outcome(a, b):
+    if a[0] != b[0]:
+        return False
+    if a[0] == 'raise':
+        return a[1] == b[1]
+    return a[1] == b[1] and hash(a[1]) == hash(b[1]) and repr(a[1].selectors) == repr(b[1].selectors)
 
 
 def cache_info():
@@ -170,14 +190,26 @@ def attack(obj):
 
 def check_value(key, other_key):
     fails = []
+    same = norm_key(key) == norm_key(other_key)
     try:
-        c = do_compile(key)
-        d = do_compile(other_key)
+        sv.purge()
+        o1 = outcome(key)
+        o2_after = outcome(other_key)          # possibly a cache hit on the entry made for `key`
+        sv.purge()
+        o2 = outcome(other_key)                # certainly a fresh parse
     except Exception as e:  # noqa: BLE001
         raise common.HarnessError(f'C15 key does not compile: {key!r} / {other_key!r}: {e!r}')
+    if not same_outcome(o2_after, o2):
+        fails.append(('compile-after-other-key-differs-from-fresh-parse',
+                      f'compile{other_key!r} gives {o2_after[0]} {o2_after[1] if o2_after[0] == "raise" else ""} right after '
+                      f'compile{key!r}, but {o2[0]} {o2[1] if o2[0] == "raise" else ""} on an empty cache'))
+    if same and o1[0] != o2[0]:
+        fails.append(('equal-keys-different-outcome', f'{key!r}: {o1[0]} {o1[1] if o1[0] == "raise" else ""}; {other_key!r}: {o2[0]} {o2[1] if o2[0] == "raise" else ""}'))
+    if o1[0] == 'raise' or o2[0] == 'raise':
+        return fails, same
+    c, d = o1[1], o2[1]
     ctx = f'key {key!r}'
     # equality relation
-    same = norm_key(key) == norm_key(other_key)
     if (c == d) != same or (c != d) == same:
         fails.append(('equality-relation', f'{key!r} vs {other_key!r}: == is {c == d}, != is {c != d}, keys equal is {same}'))
     if c == d and hash(c) != hash(d):
@@ -328,9 +360,9 @@ def replay(case):
 # ------------------------------------------------------------------ (b) histories
 
 def fresh_reference(key):
-    """A parse that cannot come from the cache: purge first (only used before a history starts)."""
+    """The outcome of a parse that cannot come from the cache: purge first (only used before a history starts)."""
     sv.purge()
-    return do_compile(key)
+    return outcome(key)
 
 
 def step(op, state, fails):
@@ -340,19 +372,18 @@ def step(op, state, fails):
     if kind == 'compile':
         key = tuple(op['key'])
         was_cached = norm_key(key) in state['cached']
-        obj = do_compile(key)
-        ref = state['refs'].get(norm_key(key))
-        if ref is None:
-            ref = state['refs'][norm_key(key)] = None
+        got = outcome(key)
         want = op.get('_ref')
         if want is not None:
-            if obj != want or hash(obj) != hash(want) or repr(obj.selectors) != repr(want.selectors):
-                fails.append(('cached-compile-differs-from-fresh-parse', f'{key!r} after {state["n"]} operations'))
-            else:
+            if not same_outcome(got, want):
+                fails.append(('cached-compile-differs-from-fresh-parse',
+                              f'{key!r} after {state["n"]} operations: {got[0]} {got[1] if got[0] == "raise" else ""}, '
+                              f'a fresh parse gives {want[0]} {want[1] if want[0] == "raise" else ""}'))
+            elif got[0] == 'ok':
                 doc = witness()
-                if [id(x) for x in obj.select(doc.target)] != [id(x) for x in want.select(doc.target)]:
+                if [id(x) for x in got[1].select(doc.target)] != [id(x) for x in want[1].select(doc.target)]:
                     fails.append(('cached-compile-selects-differently', f'{key!r}'))
-        if sv.compile(obj) is not obj:
+        if got[0] == 'ok' and sv.compile(got[1]) is not got[1]:
             fails.append(('compile-of-compiled-not-identity', repr(key)))
         state['cached'].add(norm_key(key))
         if was_cached and (state['evictions'] or state['purges']):
@@ -377,7 +408,11 @@ def step(op, state, fails):
         if ci is not None and ci.currsize != 0:
             fails.append(('purge-does-not-empty-cache', f'currsize {ci.currsize}'))
     elif kind == 'compile-extra':
-        obj = do_compile(tuple(op['key']))
+        got = outcome(tuple(op['key']))
+        if got[0] == 'raise':
+            state['n'] += 1
+            return
+        obj = got[1]
         try:
             sv.compile(obj, **{op['arg']: ({} if op['arg'] != 'flags' else sv.DEBUG)})
             fails.append(('compile-of-compiled-accepts-extra-argument', op['arg']))
@@ -423,6 +458,7 @@ def make_machine(col):
                     pool_keys.append([pat, ns, cu, 0])
     pool_keys = pool_keys[::7] + [[p, None, None, sv.DEBUG] for p in PATTERNS[:4]]
     pool_keys += [[p, None, cu, 0] for p in (':--y', 'a:--y', 'a:--x') for cu in CUSTOM_POOL[8:] if key_valid(p, cu)]
+    pool_keys += [[p, None, None, 0] for p in ('p.a\x00', 'p.a\ufffd')]
 
     class Machine(RuleBasedStateMachine):
         @initialize()
@@ -492,6 +528,8 @@ def run_foreign_pickles(col, ctx, n):
     blobs = json.loads(p.stdout)
     doc = witness()
     for key, b in zip(keys, blobs):
+        if b is None:
+            continue
         col.count()
         col.classify('foreign-pickle')
         case = {'foreign': key, 'hashseed_n': int(env['PYTHONHASHSEED'])}
@@ -501,7 +539,11 @@ def run_foreign_pickles(col, ctx, n):
             col.fail('foreign-pickle-does-not-load', case, f'{key!r}: {e!r:.150}')
             continue
         sv.purge()
-        c = do_compile(tuple(key))
+        here = outcome(tuple(key))
+        if here[0] != 'ok':
+            col.fail('foreign-process-compiles-what-this-one-rejects', case, repr(key))
+            continue
+        c = here[1]
         if key[1] or key[2]:
             col.nontrivial_case(['foreign', key], {'key': key, 'pickled_under_hashseed': env['PYTHONHASHSEED']})
         if not (u == c and c == u and not (u != c)):
